@@ -240,9 +240,11 @@ CHECKS['C11'] = dict(
           'of C09 on relabelled periodic rows and a change-count ordering argument); sliced_side_coordinates - in the '
           'ancillaries written from them every remaining dimension has a row with its label and unit whose value at '
           'column i is the source value of that dimension at the i-th selected row (C08 written_slowest_first + sub-grid '
-          'digits). The data block at (i, j) is main[rows[i], cols[j]] by C07 slice2D_elements. Hypothesis kept '
-          'explicit: every dimension keeps >= 1 in-range index (what expandSel\'s refusals enforce; the arithmetic of '
-          'CPython slices is an executable definition, not re-derived). Oracle on every case: the new dataset is read '
+          'digits). The data block at (i, j) is main[rows[i], cols[j]] by C07 slice2D_elements. position_side_end_to_end / '
+          'spectroscopic_side_end_to_end - for an ACCEPTED slice_to_dataset on a regular-grid side the hypothesis "every '
+          'dimension keeps >= 1 in-range index" is discharged (expandSel_ok, sliceIndices_lt: every index produced by the '
+          'model of CPython\'s slice.indices lies on the axis) and the returned side is exactly the writer applied to '
+          'those dimensions, or the reused source ancillaries. Oracle on every case: the new dataset is read '
           'back with raw h5py and compared coordinate by coordinate with the source, no element missing or duplicated, '
           'unsliced side linked to the source\'s datasets, source unchanged, wrapper in file / sorted / toggled view. Sources: '
           'raw-h5py generator files in any storage order and files written by the library in both conventions.'),
